@@ -269,8 +269,9 @@ fn compute_inner(tree: &mut impl LayoutBlockContainer, node_id: NodeId, inputs: 
     // 7. Determine whether this node can be collapsed through
     let all_in_flow_children_can_be_collapsed_through =
         items.iter().all(|item| item.position == Position::Absolute || item.can_be_collapsed_through);
-    let can_be_collapsed_through =
-        !has_styles_preventing_being_collapsed_through && all_in_flow_children_can_be_collapsed_through;
+    let can_be_collapsed_through = !has_styles_preventing_being_collapsed_through
+        && all_in_flow_children_can_be_collapsed_through
+        && final_outer_size.height == 0.0;
 
     #[cfg_attr(not(feature = "content_size"), allow(unused_variables))]
     let content_size = inflow_content_size.f32_max(absolute_content_size);
